@@ -10,6 +10,7 @@ import (
 	"time"
 
 	"github.com/ThreeDotsLabs/watermill"
+	"github.com/ThreeDotsLabs/watermill/components/fanin"
 	"github.com/ThreeDotsLabs/watermill/components/forwarder"
 	"github.com/ThreeDotsLabs/watermill/components/requeuer"
 	"github.com/ThreeDotsLabs/watermill/message"
@@ -93,7 +94,7 @@ func (g *c17RedelivGroup) onPublish(call int, topic string, msgs []*message.Mess
 	c.attempts++
 	c.mu.Unlock()
 	seen := 0
-	if c.Comp == "requeuer" { // the requeuer publishes the delivered copy itself: its settlement can be sampled
+	if c.Comp != "forwarder" { // the requeuer publishes the delivered copy itself: its settlement can be sampled
 		seen = script.Settlement(msgs[0])
 	}
 	c.rec("pub", g.s.in.ID(topic), snaps, seen)
@@ -178,6 +179,50 @@ func (s *c17State) redelivRequeuer(group, n int, buffer int64) error {
 	}
 	s.redelivFeed(cases, func(c *c17Redeliv) error { return src.Publish("rq_src", c.orig) })
 	if err := router.Close(); err != nil {
+		return err
+	}
+	if err := c17WaitRun(done); err != nil {
+		return err
+	}
+	src.Close()
+	for _, c := range cases {
+		c.After = s.snap(c.orig)
+	}
+	s.out.Redeliv = append(s.out.Redeliv, cases...)
+	return nil
+}
+
+// FanIn fed by a real GoChannel on several source topics; the destination fails at scripted attempt indices
+func (s *c17State) redelivFanIn(group, n int, sources []string, target string) error {
+	g := &c17RedelivGroup{s: s, byUUID: map[string]*c17Redeliv{}, byRel: map[string]*c17Redeliv{}}
+	var cases []*c17Redeliv
+	srcOf := map[*c17Redeliv]string{}
+	for i := 0; i < n; i++ {
+		m, _ := s.genMessage(s.newID(), true, "", false)
+		t := sources[s.rng.Intn(len(sources))]
+		c := &c17Redeliv{ID: fmt.Sprintf("rdi%d-%d", group, i), Comp: "fanin", Target: s.in.ID(target), Src: s.in.ID(t),
+			Msg: s.snap(m), Beh: s.failuresThenAccept(), RK: s.in.ID(requeuer.RetriesKey), orig: m, acked: make(chan struct{})}
+		cases = append(cases, c)
+		srcOf[c] = t
+		g.byUUID[m.UUID] = c
+		g.byRel[m.UUID] = c
+	}
+	g.installFilter()
+	src := gochannel.NewGoChannel(gochannel.Config{OutputChannelBuffer: 1}, watermill.NopLogger{})
+	dst := &script.Publisher{OnPublish: g.onPublish}
+	f, err := fanin.NewFanIn(src, dst, fanin.Config{SourceTopics: sources, TargetTopic: target, CloseTimeout: 5 * time.Second}, nil)
+	if err != nil {
+		return err
+	}
+	done := make(chan error, 1)
+	go func() { done <- f.Run(context.Background()) }()
+	select {
+	case <-f.Running():
+	case <-time.After(5 * time.Second):
+		return errors.New("fan-in (redelivery) did not start")
+	}
+	s.redelivFeed(cases, func(c *c17Redeliv) error { return src.Publish(srcOf[c], c.orig) })
+	if err := f.Close(); err != nil {
 		return err
 	}
 	if err := c17WaitRun(done); err != nil {
@@ -427,6 +472,9 @@ func (s *c17State) redelivGroups(next func() int, k int) error {
 		return err
 	}
 	if err := s.redelivForwarder(next(), 20*k, true, 2); err != nil {
+		return err
+	}
+	if err := s.redelivFanIn(next(), 40*k, []string{"in_a", "in_b", "in_c"}, "merged"); err != nil {
 		return err
 	}
 	return s.chainGroup(next(), 32*k)
